@@ -1,5 +1,6 @@
 import SSDriver.Util
 import SSModel.Trickery
+import SSModel.Gen.Consts
 namespace SS.Drv.C20
 open Lean SS.Trickery SS.Drv
 
@@ -10,7 +11,14 @@ def parseOp (j : Json) : Except String Op := do
     let a ← jArr j
     pure (.set (← jOptBool a[1]!))
 
+def handleFast (j : Json) : Except String String := do
+  let v0 ← jOptBool (← jField j "v0")
+  let v1 ← jOptBool (← jField j "v1")
+  -- the setting is v0 at the call's first read and v1 from its second step on; auto-detection succeeds on CPython
+  pure (pyOptBool (checkConc SS.Gen.trickeryFastPathReads true (fun k => if k = 0 then v0 else v1)))
+
 def handle (j : Json) : Except String String := do
+  if (j.getObjValAs? String "mode").toOption == some "fastpath" then return (← handleFast j)
   let ops ← (← jArr (← jField j "ops")).toList.mapM parseOp
   pure (" ".intercalate ((run true ops none).map pyBool))
 
